@@ -89,6 +89,8 @@ func runC02(c *Ctx) {
 	c02IPDispatch(c)
 	c02V4Label(c)
 	c02V4Scanner(c)
+	c02LengthTests(c)
+	v4LabelExact(c, "C02")
 }
 
 func safeSkeleton(b *skel.Builder, f *ssa.Function) (s string) {
@@ -1115,4 +1117,106 @@ func c02V4Scanner(c *Ctx) {
 		return
 	}
 	c.check(bad == "", "C02.v4.scanner", f, what, nil, sprintf("%d (field count, validity vector) classes evaluated. %s", cases, bad))
+}
+
+// c02LengthTests: a test of the length of the whole input that leads straight
+// to the rejecting exit may only turn away lengths that no valid text has.
+// The reference parsers accept: IPv6 without zone 2..45 bytes ("::" ..
+// "0000:0000:0000:0000:0000:ffff:255.255.255.255"), dotted quads 7..15, and
+// with a zone or a port no upper bound at all.  (A length cap added "to skip
+// hopeless inputs" is the typical change here; the cap of the pure-hex form,
+// 39, forgets the embedded IPv4 form.)
+func c02LengthTests(c *Ctx) {
+	const rule = "C02.length-tests"
+	c.L.Floor(rule, 4)
+	specs := []struct {
+		name   string
+		lo, hi int64 // hi < 0: unbounded
+		what   string
+	}{
+		{"isValidIPv6String", 2, 45, "an IPv6 literal without zone has 2..45 bytes"},
+		{"isValidIPv4String", 7, 15, "a dotted quad has 7..15 bytes"},
+		{"IsValidIPString", 2, -1, "an address with a zone has no maximal length"},
+		{"IsValidIPPortString", 6, -1, "an address with zone and port has no maximal length"},
+	}
+	for _, sp := range specs {
+		f := c.fn("netutil", sp.name)
+		if f == nil || len(f.Params) == 0 {
+			continue
+		}
+		rejects := func(b *ssa.BasicBlock) bool {
+			for hops := 0; hops < 4; hops++ {
+				if len(b.Instrs) == 0 {
+					return false
+				}
+				switch t := b.Instrs[len(b.Instrs)-1].(type) {
+				case *ssa.Return:
+					if len(b.Instrs) != 1 || len(t.Results) == 0 {
+						return false
+					}
+					k, ok := core.ConstBool(t.Results[0])
+					return ok && !k
+				case *ssa.Jump:
+					if len(b.Instrs) != 1 {
+						return false
+					}
+					b = b.Succs[0]
+				default:
+					return false
+				}
+			}
+			return false
+		}
+		n := 0
+		ok, why := true, ""
+		var at ssa.Instruction
+		core.EachInstr(f, func(in ssa.Instruction) {
+			iff, isIf := in.(*ssa.If)
+			if !isIf {
+				return
+			}
+			cond, truth := core.StripNot(iff.Cond, true)
+			bo, isB := cond.(*ssa.BinOp)
+			if !isB {
+				return
+			}
+			op := bo.Op
+			var k int64
+			isLen := func(v ssa.Value) bool {
+				lc, ok := v.(*ssa.Call)
+				return ok && core.CalleeName(&lc.Call) == "builtin.len" && lc.Call.Args[0] == ssa.Value(f.Params[0])
+			}
+			if kk, isK := core.ConstInt(bo.Y); isK && isLen(bo.X) {
+				k = kk
+			} else if kk, isK := core.ConstInt(bo.X); isK && isLen(bo.Y) {
+				k, op = kk, flipOp(op)
+			} else {
+				return
+			}
+			n++
+			hi := sp.hi
+			if hi < 0 {
+				hi = 1 << 20
+			}
+			test := func(l int64) {
+				t := cmpInt(op, l, k) == truth
+				succ := iff.Block().Succs[1]
+				if t {
+					succ = iff.Block().Succs[0]
+				}
+				if rejects(succ) && ok {
+					ok, at = false, iff
+					why = sprintf("%s: the test %s sends length %d straight to the rejecting exit", sp.what, core.Describe(cond), l)
+				}
+			}
+			for l := sp.lo; l <= hi && l <= sp.lo+4096; l++ {
+				test(l)
+			}
+			test(hi)
+		})
+		if ok {
+			why = sprintf("%s; %d test(s) of len(%s) against a constant examined", sp.what, n, f.Params[0].Name())
+		}
+		c.check(ok, rule, f, "no length test of the whole input turns a valid length away", at, why)
+	}
 }
